@@ -257,7 +257,7 @@ ASSUMPTIONS = [
 
 
 # ---------------------------------------------------------------- IndexClassifierWrapper around the real SklearnClassifier
-def sc_sklearn_inside(d, n, ignore_partial):
+def sc_sklearn_inside(d, n, ignore_partial, weightless=False):
     """the wrapped classifier is the real SklearnClassifier around a scikit-learn estimator that accumulates whatever it
     is fitted on (warm_start-like) and has no partial_fit: after fit(idx0) and a second (partial_)fit the estimator that
     answers predictions has been fitted exactly once, on exactly the samples the reference model implies"""
@@ -270,7 +270,7 @@ def sc_sklearn_inside(d, n, ignore_partial):
     y = d.arr([float(k) for k in lab])
     second = d.choose("second_op", ["fit", "partial_fit"])
     idx0, idx1 = [0], [1] if n == 2 else [1, 2]
-    w = IndexClassifierWrapper(SklearnClassifier(_warm_classifier(d.np), classes=[0.0, 1.0]), X, y,
+    w = IndexClassifierWrapper(SklearnClassifier(_warm_classifier(d.np, weightless), classes=[0.0, 1.0]), X, y,
                                ignore_partial_fit=ignore_partial)
     try:
         w.fit(d.arr(idx0, dtype=int))
@@ -296,5 +296,6 @@ def sc_sklearn_inside(d, n, ignore_partial):
 
 HARNESSES.append(dual_harness(
     "sklearn_classifier_inside_wrapper", sc_sklearn_inside,
-    lambda tier: [dict(n=n, ignore_partial=ip) for n in ((2,) if tier == "quick" else (2, 3)) for ip in (True, False)],
+    lambda tier: [dict(n=n, ignore_partial=ip) for n in ((2,) if tier == "quick" else (2, 3)) for ip in (True, False)]
+    + [dict(n=2, ignore_partial=True, weightless=True)],
     UNITS[:3] + ["skactiveml.classifier._wrapper:SklearnClassifier._fit"], required_witnesses=("ran",)))
